@@ -458,7 +458,7 @@ def install(w):
         return split_top(s)
 
     def default(ex, c, a):
-        return default_of(ex, c.selfty)
+        return default_of(ex, ex.env.get('generics', {}).get(c.selfty, c.selfty))
     M['<_ as Default>::default'] = default
 
     def mem_replace(ex, c, a):
